@@ -438,3 +438,5 @@ def check(ctx):
     ctx.run('C04.R5', 'CTR: SQ head/tail values flow only into wrap-safe operations', r5_ctr)
     ctx.run('C04.R6', 'IORING_SETUP_NO_SQARRAY set unconditionally (slot index == SQE index)', r6_no_sqarray)
     ctx.run('C04.R7', 'QueueFull => wait_for_submission + Pending, never a write', r7_full_waits)
+    from . import c18
+    ctx.run('C04.R8', 'the lengths that give the index masks are the sizes the kernel granted: submissions_len = params.sq_entries (=C18.R4)', lambda r, facts: c18.ring_lengths(r, facts, modes=False, cq=False, floor=1))
